@@ -38,6 +38,9 @@ type Core struct {
 	// pendingMutex serializes checkPendingBundles, which is called both from the cron and for each appeared peer.
 	pendingMutex sync.Mutex
 
+	// forwarding holds the IDs of those bundles which are being forwarded right now, see forward.
+	forwarding sync.Map
+
 	stopSyn chan struct{}
 	stopAck chan struct{}
 }
